@@ -36,7 +36,10 @@ Definition check_match (c : json) : json :=
   let ineq := has_ineq_names p b0 in
   let m := core_match p d b0 in
   let frag := wf && gr && negb risk in
-  let determ := gr && negb risk && negb ineq in
+  (* (outside the fragment: an OPTIONAL variable that occurs twice may be bound by one occurrence and
+     "absent" at the other, or fail, depending on Go's map order: not compared) *)
+  let opt_twice := let vs := pvars p in existsb (fun v => is_optvar v && (2 <=? count_str v vs)%nat) vs in
+  let determ := gr && negb risk && negb ineq && negb opt_twice in
   let model_ok :=
     if frag then forallb (obs_agrees_model m) obs
     else if determ then
